@@ -231,6 +231,10 @@ def run_write(ctx, case):
     for k in range(case["n"]):
         dt = rng.choice(["float64", "float64", "float32", "int64", "int32"])
         vals = [rng.randint(-400, 400) / 8.0 if dt.startswith("f") else rng.randint(-300, 300) for _ in range(n)]
+        if dt == "int64" and rng.random() < 0.4:
+            vals[rng.randrange(n)] = rng.choice([2 ** 31, -2 ** 31 - 1, 2 ** 40 + 7, 2 ** 53 + 1, -2 ** 62])       # beyond 32 bits
+        if dt == "float64" and rng.random() < 0.3:
+            vals[rng.randrange(n)] = rng.choice([float("inf"), float("-inf")])      # a value, not a missing cell
         mstyle = rng.choice(["nomask", "allfalse", "random", "random"])
         data = numpy.array(vals, dtype=dt).reshape(shape)
         if mstyle == "nomask":
